@@ -439,7 +439,7 @@ fn constructors<const M: usize>() {
     forget(i);
 }
 
-// @h prop=C04 tier=quick kind=check timeout=1800 mem=4 bound="scheme <= 4 bytes" encodes="Default for UriRefBuf/IriRefBuf/PathBuf;RiBufImpl::from_scheme;UriBuf::from_scheme;IriBuf::from_scheme"
+// @h prop=C04 tier=quick kind=check timeout=1800 mem=6 bound="scheme <= 4 bytes" encodes="Default for UriRefBuf/IriRefBuf/PathBuf;RiBufImpl::from_scheme;UriBuf::from_scheme;IriBuf::from_scheme"
 #[cfg_attr(kani, kani::proof)]
 #[cfg_attr(kani, kani::unwind(8))]
 #[cfg_attr(kani, kani::stub(std::vec::Vec::push, crate::stubs::vec_push))]
